@@ -82,7 +82,8 @@ def main():
         f = scipy.interpolate.interp1d(np.linspace(lower_cdf, upper_cdf, M),
                 ens, bounds_error=False,
                 axis=3, kind='zero')
-        if quantile == 1:
+        if quantile == 1 or M == 1:
+            # The interpolator cannot be evaluated at its upper end, nor for a single member
             x[:, :, :, i] = ens[:, :, :, -1]
         else:
             x[:, :, :, i] = f(quantile)
